@@ -95,8 +95,15 @@ def generate(rng, tier, index, backends):
         # quick: a seeded sample of the complete int/slice family, thorough: all of it
         enum = {"axis": rng.choice(["rows", "rows", "columns"]),
                 "sample": 150 if tier == "quick" else None, "seed": rng.randrange(2**31)}
+    # transient storage errors during a few of the loads (recorded back-ends): the n-th read
+    # request of that load on the image file fails once with EIO
+    load_faults = {}
+    if rng.random() < 0.3:
+        for _ in range(rng.randint(1, 4)):
+            load_faults[str(rng.randrange(len(sels)))] = rng.choice([0, 0, 1, 1, 2, 3])
     return {"world": wp, "rpc": r, "image": k, "selections": sels, "enumerate": enum,
-            "scribble_results": rng.random() < 0.5}
+            "scribble_results": rng.random() < 0.5, "load_faults": load_faults,
+            "create_cache": rng.random() < 0.3}
 
 
 def _same(res, ref, level, full=False):
@@ -175,7 +182,8 @@ def execute(plan, props):
         rel = common.rpc_relation(n, r)
         try:
             m0 = SIM.mark()
-            tree = w.open(use_cache=False, records_per_chunk=r)
+            tree = w.open(use_cache=False, records_per_chunk=r,
+                          create_cache=True if plan.get("create_cache") else None)
             open_events = SIM.since(m0)
             twin_tree = w.open(use_cache=False, records_per_chunk=r)
             da = tree["imagery"][grp]["data"]
@@ -251,13 +259,34 @@ def execute(plan, props):
                 bump("control-disagrees-with-eager:" + cls)
                 continue
             bump("selections")
+            nth_fault = (plan.get("load_faults") or {}).get(str(k_sel))
+            faulted = nth_fault is not None and w.backend in world.RECORDED
+            if faulted:
+                SIM.read_fault = {"file": name, "nth": nth_fault}
             mark = SIM.mark()
             try:
                 got = select.apply(da, sel).load()
                 err = None
             except Exception as e:  # noqa: BLE001
                 got, err = None, e
+            finally:
+                fired = bool(faulted and SIM.read_fault and SIM.read_fault.get("fired"))
+                SIM.read_fault = None
             load_events = SIM.since(mark)
+            if fired:
+                # under an injected read error a load may fail - it must never return wrong data;
+                # and the same selection asked again (no fault) must be right
+                bump("loads-under-eio")
+                cls = cls + ":eio"
+                if err is not None:
+                    bump("loads-under-eio-raised")
+                    try:
+                        got = select.apply(da, sel).load()
+                        err = None
+                        cls = cls + "-retry"
+                    except Exception as e:  # noqa: BLE001
+                        got, err = None, e
+                        cls = cls + "-retry"
             keys.append(f"{cls}|{rel}|{prod.level}")
             if "C02" in props:
                 if err is not None:
@@ -280,7 +309,7 @@ def execute(plan, props):
                             pass
                     elif len(kept) < 8 and got.size:
                         kept.append((cls, sel, got, want))
-            if "C11" in props and w.backend in world.RECORDED and err is None:
+            if "C11" in props and w.backend in world.RECORDED and err is None and not fired:
                 violations.extend(check_load_events(load_events, sel, cls, name, n, r_eff, ext,
                                                     fsize, rel))
         if "C02" in props:
